@@ -243,6 +243,106 @@ def known_filter_factory(ctx):
     return known_filter
 
 
+# ----------------------------------------------------------------------------------------
+# pairing at LATCH time: the real key keeper poll with prepared key files / host key documents
+# ----------------------------------------------------------------------------------------
+def key_doc(keys, i):
+    return {"authorizationScheme": "Azure-HMAC-SHA256", "guid": keys[i][0], "incarnationId": i, "issued": "2021-05-05T 12:00:00Z", "key": keys[i][1]}
+
+
+def status_doc(keys, sg, state):
+    return {"authorizationScheme": "Azure-HMAC-SHA256", "keyDeliveryMethod": "http", "keyGuid": None if sg is None else keys[sg][0],
+            "requiredClaimsHeaderPairs": None, "secureChannelState": state, "version": "1.0"}
+
+
+def latch_scenario(keys, files, steps):
+    """files: [(name index, doc index | "malformed")]: the file <guid of name>.key holds the document of doc;
+    steps: [(status keyGuid index | None, state, acquire doc index | None)].
+    Returns the driver input and the latch list the key keeper's poll logic performs (loop_poll:
+    a key is needed when the state is not disabled and the host names no guid or another one than
+    the slot's; the local file named by the host's guid first, else acquire; clear on a change to
+    disabled) -- the CONTENT each latch puts into the slot is the model's business (latch_run)."""
+    folder = {n: d for n, d in files if d != "malformed"}
+    cur, k_state, latches = None, "unknown", []
+    for sg, state, acq in steps:
+        st = state.lower()
+        latch = None
+        if st != "disabled" and (sg is None or sg != cur_guid(cur)):
+            if sg is not None and sg in folder:
+                latch = ("local", sg)
+                cur = folder[sg]
+            elif acq is not None:
+                latch = ("acq", acq)
+                folder[acq] = acq
+                cur = acq
+            else:
+                latches.append(None)
+                continue
+        if k_state != st:
+            k_state = st
+            if st == "disabled":
+                latch = "clear"     # (a disabled poll never latches, so nothing is overwritten here)
+                cur = None
+        latches.append(latch)
+    j = {"kind": "latch",
+         "files": [{"name": keys[n][0] + ".key", "raw": "{ \"guid\": "} if d == "malformed" else {"name": keys[n][0] + ".key", "doc": key_doc(keys, d)} for n, d in files],
+         "steps": [{"status": status_doc(keys, sg, state), "acquire": None if acq is None else key_doc(keys, acq)} for sg, state, acq in steps],
+         "sign": ["goalstate", "imds"]}
+    return {"json": j, "files": files, "steps": steps, "latches": latches, "keys": keys}
+
+
+def cur_guid(cur):
+    return cur      # document i carries guid i
+
+
+def latch_model_expr(sc):
+    def ck(i):
+        return "(Key [%d] [%d])" % (i, 100 + i)
+    f = "[" + "; ".join("([%d], %s)" % (n, ck(d)) for n, d in sc["files"] if d != "malformed") + "]"
+    if f == "[]":
+        f = "(@nil (bytes * key))"
+    ls = []
+    for l in sc["latches"]:
+        if l is None:
+            ls.append("LatchLocal [250]")      # no file of that name: no SetKey
+        elif l == "clear":
+            ls.append("LatchClear")
+        elif l[0] == "local":
+            ls.append("LatchLocal [%d]" % l[1])
+        else:
+            ls.append("LatchAcquired %s" % ck(l[1]))
+    return "latch_run %s None [%s]" % (f, "; ".join(ls))
+
+
+def latch_scenarios(rng, quick):
+    out = []
+    W, D = "WireServer", "Disabled"
+    fixed = [
+        ([(2, 1)], [(2, W, None), (2, W, None)]),                      # G2.key holds the document of (G1, K1)
+        ([(2, 2)], [(2, W, None), (2, W, None)]),
+        ([], [(None, W, 3), (3, W, None)]),                            # first latch from the host
+        ([], [(2, W, 3), (2, W, 4)]),                                  # the host names G2 but hands out other documents
+        ([(1, 1), (2, 1)], [(1, W, None), (2, W, None), (1, W, None)]),
+        ([(2, 1)], [(2, W, 2), (2, W, 2)]),                            # local file wins over the host's document
+        ([(2, "malformed")], [(2, W, 2), (2, W, None)]),
+        ([(1, 1)], [(1, W, None), (1, D, None), (2, W, 2)]),           # disable clears, re-latch
+        ([(1, 1), (2, 2)], [(1, W, None), (2, W, None), (1, W, None)]),   # rotation through local files
+        ([(3, 2), (2, 3)], [(2, W, None), (3, W, None), (2, W, None)]),   # two files with swapped contents
+        ([(2, 1)], [(2, W, None), (1, W, 4), (4, W, None)]),
+        ([(1, 2)], [(None, W, 3), (1, W, None), (2, W, None)]),
+    ]
+    for files, steps in fixed:
+        out.append(latch_scenario(fresh_keys(rng, 4), files, steps))
+    for _ in range(30 if quick else 300):
+        names = rng.sample([1, 2, 3, 4], rng.randint(0, 3))
+        files = [(n, rng.choice([1, 2, 3, 4, n, n, "malformed"])) for n in names]
+        steps = []
+        for _ in range(rng.randint(1, 4)):
+            steps.append((rng.choice([None, 1, 2, 3, 4]), D if rng.random() < 0.15 else rng.choice([W, "WireServerAndImds"]), rng.choice([None, 1, 2, 3, 4, 4])))
+        out.append(latch_scenario(fresh_keys(rng, 4), files, steps))
+    return out
+
+
 def coq_eval(ctx, exprs, **kw):
     """vplib.coq_eval on the SignRace model; the .vo files are shared with concurrently running
     checks of other properties (a rebuild of a common dependency while coqc loads it makes coqc
@@ -409,6 +509,50 @@ def run(ctx):
                                 "schedule": ["poll signer %d" % it[1] if it[0] == "p" else ("clear_key" if it[1] is None else "update_key k%d" % it[1]) for it in sc["schedule"]],
                                 "impl": {"announced_key": o[2], "mac_verifies_under_key": o[1], "actor_round_trips": reads}, "model": {"hdr": mh, "class": mflag}})
 
+    # ---------------- pairing at latch time: the real key keeper poll, then the real host calls ----------------
+    lscs = latch_scenarios(rng, ctx.quick)
+    lout = run_driver(ctx, exe, [json.dumps(x["json"]) for x in lscs], env, "key-keeper latch scenarios")
+    lmodel = coq_eval(ctx, [latch_model_expr(x) for x in lscs], shard=40, name="latch")
+    n_latch_polls = n_latch_name_mismatch = 0
+    for lsc, r, mres in zip(lscs, lout, lmodel):
+        keys = lsc["keys"]
+        by_guid = {g: i for i, (g, _) in keys.items()}
+        by_val = {v: i for i, (_, v) in keys.items()}
+        if not r.get("ok") or len(r.get("steps", [])) != len(lsc["steps"]):
+            disagreements.append({"case": {"route": "latch", "driver_input": lsc["json"]}, "model": "every poll completes", "impl": {"error": r.get("error"), "polls": len(r.get("steps", []))}})
+            continue
+        n_latch_name_mismatch += 1 if any(d != "malformed" and d != n for n, d in lsc["files"]) or any(sg is not None and acq is not None and acq != sg for sg, _, acq in lsc["steps"]) else 0
+        everything = set(keys.keys())
+        for pi, (stp, m) in enumerate(zip(r["steps"], mres)):
+            n_latch_polls += 1
+            slot = None if stp["key_guid"] is None and stp["key_value"] is None else (by_guid.get(stp["key_guid"], stp["key_guid"]), by_val.get(stp["key_value"], "?"))
+            mslot = None if m is None else (m[1][0][0], m[1][1][0] - 100)
+            if slot != mslot:
+                disagreements.append({"case": {"route": "latch", "what": "content of the key slot after poll %d (id index, secret index)" % pi, "driver_input": lsc["json"], "model_expr": latch_model_expr(lsc)},
+                                      "model": mslot, "impl": slot})
+            for route, reqs in sorted(stp["signed"].items()):
+                n_signings += 1
+                for q, rq in enumerate(reqs):
+                    n_requests += 1
+                    o = observe(rq, keys)
+                    n_headers += 1 if o is not None else 0
+                    f = judge(o, lsc, 0, 1, route, everything, False, "host call after key-keeper poll %d (the host issued: key #i = (guid i, secret i))" % pi, req_ix=q)
+                    if f:
+                        failures.append(f)
+                        n_torn += 1 if f["kind"] == "torn" else 0
+                    ih = None if o is None else (o[2], o[1])
+                    if q == 0 and ih != mslot and slot == mslot:
+                        disagreements.append({"case": {"route": route, "what": "signature after poll %d vs the slot" % pi, "driver_input": lsc["json"]}, "model": mslot, "impl": ih})
+        for pi, raw in r.get("attests", []):
+            n_requests += 1
+            o = observe(raw, keys)
+            f = judge(o, lsc, 0, 1, "key-attestation", everything, False, "attestation request of key-keeper poll %d" % pi)
+            if f:
+                failures.append(f)
+            elif o is None:
+                disagreements.append({"case": {"route": "key-attestation", "driver_input": lsc["json"]}, "model": "signed with the acquired document", "impl": "no authorization header"})
+    ctx.log("latch scenarios done: %d polls" % n_latch_polls)
+
     # ---------------- the proxied route: keeper ops injected at every scheduler turn ----------------
     pkeys = fresh_keys(rng, 3)
     pkeys[0] = fresh_keys(rng, 1)[1]
@@ -514,7 +658,7 @@ def run(ctx):
         if rs != {model_reads[route]} and not any(d["case"].get("route") == route for d in disagreements):
             disagreements.append({"case": {"route": route, "what": "actor round trips per signing"}, "model": model_reads[route], "impl": sorted(rs)})
 
-    total = len(scs) + len(plines) + len(flines)
+    total = len(scs) + len(plines) + len(flines) + len(lscs)
     ctx.coverage.update({
         "evaluations": total,
         "distinct_nontrivial": n_rot_during + sum(len(v) for v in seen.values()),
@@ -524,7 +668,7 @@ def run(ctx):
         "exhaustive": False,
         "samples": samples[:4],
         "input_distribution": {"hand_exhaustive": n_exh, "hand_random": len(scs) - n_exh - n_hand_faults, "host_fault_calls": n_fault_calls,
-                               "requests_judged": n_requests, "proxied_runs": len(plines) + len(flines), "proxied_turns_calibrated": turns,
+                               "requests_judged": n_requests, "latch_scenarios": len(lscs), "latch_polls": n_latch_polls, "latch_scenarios_with_name_or_asked_guid_mismatch": n_latch_name_mismatch, "proxied_runs": len(plines) + len(flines), "proxied_turns_calibrated": turns,
                                "signing_operations": n_signings, "with_header": n_headers, "key_changed_during_operation": n_rot_during,
                                "torn_pairs_observed": n_torn, "actor_round_trips_per_signing": {r: sorted(v) for r, v in reads_seen.items()},
                                "model_round_trips": model_reads},
